@@ -33,6 +33,11 @@ Small == {K0, L("older", 10), L("sha256", 1)}
 X2 == {Or(K0, K0, 1, 1), Thr(1, <<K0, K0>>)} \cup {And(a, c) : a \in Small, c \in {L("older", 10), L("sha256", 1), L("sha256", 2)}}
 PT0 == UNION {{Thr(k, InsertAt(<<a, K0>>, q, x)) : k \in 1..3, q \in 1..3} : x \in X2, a \in Small}
        \cup UNION {{Thr(k, InsertAt(<<K0, K0, d>>, q, x)) : k \in 2..3, q \in 1..4} : x \in X2, d \in {K0, L("older", 10)}}
+\* disjunctions with a conjunction on either side whose conjuncts differ in cost (key vs
+\* threshold / nested choice / hash / lock), both orders of the conjuncts, every odds
+CostlyX == {Thr(2, <<K0, K0, K0>>), Or(K0, K0, 1, 1), And(K0, L("sha256", 1)), L("sha256", 1), L("older", 10)}
+OrAnd0 == UNION {{Or(And(K0, x), z, o[1], o[2]), Or(And(x, K0), z, o[1], o[2]), Or(z, And(K0, x), o[1], o[2]), Or(z, And(x, K0), o[1], o[2])}
+                 : x \in CostlyX, z \in {K0, L("older", 10)}, o \in Odds}
 RECURSIVE Relab(_, _)
 RECURSIVE RelabSeq(_, _, _, _)
 RelabSeq(xs, q, nxt, acc) ==
@@ -42,7 +47,7 @@ Relab(P, nxt) ==
   IF P.p = "key" THEN [p |-> L("key", nxt), nxt |-> nxt + 1]
   ELSE IF Len(P.xs) = 0 THEN [p |-> P, nxt |-> nxt]
   ELSE LET r == RelabSeq(P.xs, 1, nxt, <<>>) IN [p |-> [P EXCEPT !.xs = r.xs], nxt |-> r.nxt]
-PT == {Relab(P, 1).p : P \in PT0}
+PT == {Relab(P, 1).p : P \in PT0 \cup OrAnd0}
 
 RECURSIVE KeysOfP(_)
 RECURSIVE KeysOfPS(_, _)
